@@ -128,6 +128,11 @@ class Check(PropertyCheck):
         f = gen.gen_filter(rng)
         lines = ["new", instance_line(jobs), gen.filter_line(f)]
         kinds = list(KINDS)
+        quiet = rng.random() < 0.35
+        if quiet:
+            # no observer that queries the dispatcher from inside its callback (the recorder takes a snapshot): nothing
+            # reads the dispatcher between a dispatch and the next request
+            kinds = [k for k in kinds if k != "recorder"]
         rng.shuffle(kinds)
         for k in kinds:
             lines.append("obs " + k)
@@ -141,6 +146,24 @@ class Check(PropertyCheck):
         def inject():
             nonlocal n_bad
             bad = gen.gen_invalid_request(rng, tr, M)
+            if quiet and tr.ready() and rng.random() < 0.6:
+                # machine ids of every flavour on a ready operation: negative (Python would index from the end), beyond the
+                # last machine, in range but not eligible
+                bj, bp = rng.choice(tr.ready())
+                bms = jobs[bj][bp][0]
+                cands = [(-k, "neg_machine") for k in range(1, M + 1)] + [(M + k, "oob_machine") for k in range(3)] + \
+                        [(mm, "bad_machine") for mm in range(M) if mm not in bms]
+                bm, bkind = rng.choice(cands)
+                bad = (bj, bp, bm, bkind)
+            if bad and (quiet or rng.random() < 0.4):
+                # a "blind" rejected request: nothing is read between the previous dispatch and it (no query has filled any
+                # per-state memo), nothing right after it; the next VALID request follows at once.  Judged by: it must
+                # raise, and the final state must equal the run of the history without it.
+                lines.append("mark blind " + bad[3])
+                lines.append(f"disp {bad[0]} {bad[1]} {bad[2]}")
+                bad_kinds.add(bad[3])
+                n_bad += 1
+                return bad
             if bad:
                 lines.extend(probe)
                 lines.append("mark injected " + bad[3])
@@ -150,10 +173,19 @@ class Check(PropertyCheck):
                 n_bad += 1
 
         reset_at = rng.randint(1, max(1, gen.num_ops(jobs) - 1)) if rng.random() < 0.35 else None
+        offs = [sum(len(job) for job in jobs[:k]) for k in range(len(jobs))]
         while not tr.done():
-            if rng.random() < 0.6:
-                inject()
+            blind = inject() if rng.random() < 0.6 else None
             j, p, m = gen.gen_valid_request(rng, tr)
+            if blind and rng.random() < 0.7:
+                # the valid request right after a blind rejected one is RELATED to it: a neighbouring operation id (or the
+                # same job), on the machine the bad id aliases (modulo the number of machines) when that is eligible
+                bid = offs[blind[0]] + blind[1]
+                near = sorted(tr.ready(), key=lambda r: (abs(offs[r[0]] + r[1] - bid) or 1.5, r))   # a neighbour first, then the operation itself
+                j, p = near[0]
+                ms = jobs[j][p][0]
+                alias = blind[2] % M if isinstance(blind[2], int) else None
+                m = alias if alias in ms else rng.choice(ms)
             tr.take(j)
             n_acc += 1
             lines.append(f"disp {j} {p} {m}")
@@ -204,8 +236,10 @@ class Check(PropertyCheck):
                 if a != b:
                     res.append(("state-changed", f"rejected `{d_line}` changed `{lines[index - 13 + k]}`: before {a} after {b}"))
                     break
+        if line.startswith("disp") and index >= 1 and lines[index - 1].startswith("mark blind") and out != "raise":
+            res.append(("not-rejected", f"invalid request `{line}` ({lines[index - 1][11:]}) did not raise (reply {out})"))
         # at the end: same world as the clean history
-        if index == len(lines) - 1:
+        if index == len(lines) - 1 and lines[-6:] == ["snap", "wsnap", "trace", "q current_time", "q available", "q unscheduled"]:
             from impl_ext import ImplWorld
             clean = ImplWorld(scenario.meta.get("filter_style", "callable"))
             raised = {i for i, (l, o) in enumerate(zip(lines, outs)) if l.startswith("disp") and o == "raise"}
